@@ -158,6 +158,13 @@ class ParserCorr(Corr):
                     seen.add(s)
                 # near misses
                 seen.update({v + " ", " " + v, v[:-1], v + "x", v.replace("_", "-"), v.replace("_", "")})
+                # characters outside ASCII whose UPPER-casing (not their lower-casing) collapses to ASCII letters: long s, dotless i, the
+                # ffi / st ligatures, sharp s -- no documented rule makes these a spelling of the member (round 5 of DESIGN section 9)
+                for a, b in (("s", "\u017f"), ("i", "\u0131"), ("ffi", "\ufb03"), ("st", "\ufb06"), ("ss", "\u00df"), ("fi", "\ufb01")):
+                    for w in (v, v.upper()):
+                        if a in w.lower():
+                            k = w.lower().index(a)
+                            seen.add(w[:k] + b + w[k + len(a):])
             if ename == "Visibility":
                 for a in list(DOC_ALIASES) + ["v0-100", "V0-40", "v40-60 ", "none ", "not_available"]:
                     seen.add(a)
